@@ -1750,6 +1750,23 @@ class GroupBy:
 
         return_polars = self._values_is_polars(type_list)
 
+        if times is not None:
+            if len(times) != len(self):
+                raise ValueError(
+                    f"Length of times ({len(times)}) does not match length of group keys ({len(self)})"
+                )
+            reference_index = (
+                common_index if common_index is not None else self._key_index
+            )
+            if (
+                isinstance(times, pd.Series)
+                and reference_index is not None
+                and not times.index.equals(reference_index)
+            ):
+                raise ValueError(
+                    "Pandas index of times does not match that of the other inputs"
+                )
+
         if index_by_groups:
             indexer = self._group_sort_indexer
             result_index = self._build_group_sorted_index(common_index)
